@@ -170,7 +170,7 @@ PROPS = {
         level_note="'Loop forever' is restated as exceeding 70000 provider accesses (more than one pass over the 64 Ki-word address space); a wall-clock watchdog firing is inconclusive, never a violation.",
         rule="case = one image; non-trivial = not all-zero/all-ones; distinct by content hash",
         assumptions=[],
-        min_distinct=dict(quick=20000, thorough=1000000),
+        min_distinct=dict(quick=12000, thorough=800000),
         required_counters=["image.wrap-to-self", "image.wrap-to-earlier", "image.category-len-ffff", "image.size-word-large", "image.string-index-past-table", "image.pdo-255x255", "image.blank-zero", "image.blank-ones", "init_runs", "query.tx_pdos"],
         runs=[native("sii-fuzz-release", "c13", "release"), native("sii-fuzz-debug", "c13", "debug", args={"scale-pct": dict(quick=60, thorough=20)})],
     ),
